@@ -3,7 +3,7 @@ from verif import *
 from props.routers import *
 
 THEOREMS = ['c09_pubsub_no_sleep_on_undone_work', 'c09_pubsub_never_parks_unarmed', 'c09_reqrep_never_parks_unarmed', 'c09_pubsub_parks_only_when_drained', 'c09_reqrep_parks_only_when_drained',
-            'c09_pubsub_work_bounded', 'c09_reqrep_work_bounded', 'c09_pubsub_never_spins', 'c09_reqrep_never_spins']
+            'c09_pubsub_work_bounded', 'c09_reqrep_work_bounded', 'c09_pubsub_never_spins', 'c09_reqrep_never_spins', 'c09_pubsub_parks_armed_everywhere', 'c09_reqrep_parks_armed_everywhere']
 
 
 def run(tier, seed, replay=None):
